@@ -7,6 +7,8 @@ use num_bigint::BigUint;
 use vmodel::gen;
 use vmodel::*;
 
+mod surface;
+
 pub fn spec() -> PropSpec {
     PropSpec {
         id: "C03",
@@ -24,7 +26,7 @@ pub fn spec() -> PropSpec {
 
 /// Recursive operand builder: at each even split, the high half is related to the low half
 /// (equal, ±1, complement, …) or built independently, down to small sizes.
-fn kara_build(t: &mut Tape, n: usize) -> Limbs {
+pub(crate) fn kara_build(t: &mut Tape, n: usize) -> Limbs {
     if n < 4 || n % 2 == 1 || t.chance(1, 4) {
         return gen::limbs(t, n);
     }
@@ -41,7 +43,7 @@ fn kara_build(t: &mut Tape, n: usize) -> Limbs {
     v
 }
 
-fn operand(t: &mut Tape, n: usize) -> Limbs {
+pub(crate) fn operand(t: &mut Tape, n: usize) -> Limbs {
     if n >= 4 && t.chance(1, 2) {
         kara_build(t, n)
     } else {
@@ -49,7 +51,7 @@ fn operand(t: &mut Tape, n: usize) -> Limbs {
     }
 }
 
-fn mul_pair(t: &mut Tape, l: usize, r: usize) -> (Limbs, Limbs) {
+pub(crate) fn mul_pair(t: &mut Tape, l: usize, r: usize) -> (Limbs, Limbs) {
     let a = operand(t, l);
     let b = if l == r && t.chance(1, 3) {
         // related operand: same halves swapped, or a Rel transform
@@ -65,7 +67,7 @@ fn mul_pair(t: &mut Tape, l: usize, r: usize) -> (Limbs, Limbs) {
     (a, b)
 }
 
-fn classify(c: &mut Case, a: &[u64], b: &[u64], prod: &BigUint) {
+pub(crate) fn classify(c: &mut Case, a: &[u64], b: &[u64], prod: &BigUint) {
     let nt = bit_len(a) >= 2 && bit_len(b) >= 2 && prod.bits() > 64;
     c.nontrivial(nt);
     if a.len() == b.len() && a.len() >= 2 && a.len() % 2 == 0 {
@@ -151,7 +153,7 @@ fn limb_case(t: &mut Tape, c: &mut Case) -> CaseResult {
 // ------------------------------------------------------------------------------------------------
 // fixed widths
 
-fn fixed_mul<const L: usize, const R: usize>(t: &mut Tape, c: &mut Case) -> CaseResult {
+pub(crate) fn fixed_mul<const L: usize, const R: usize>(t: &mut Tape, c: &mut Case) -> CaseResult {
     let (al, bl_) = mul_pair(t, L, R);
     c.limbs("a", &al);
     c.limbs("b", &bl_);
@@ -204,7 +206,7 @@ fn fixed_mul<const L: usize, const R: usize>(t: &mut Tape, c: &mut Case) -> Case
 }
 
 /// equal-width-only forms: trait WrappingMul, Wrapping / Checked wrappers, squaring
-fn fixed_sq<const L: usize>(t: &mut Tape, c: &mut Case) -> CaseResult {
+pub(crate) fn fixed_sq<const L: usize>(t: &mut Tape, c: &mut Case) -> CaseResult {
     let (al, bl_) = mul_pair(t, L, L);
     c.limbs("a", &al);
     c.limbs("b", &bl_);
@@ -269,7 +271,7 @@ fn fixed_sq<const L: usize>(t: &mut Tape, c: &mut Case) -> CaseResult {
 }
 
 /// widening forms for widths with a `Concat` impl (W = 2L)
-fn fixed_wide<const L: usize, const W: usize>(t: &mut Tape, c: &mut Case) -> CaseResult
+pub(crate) fn fixed_wide<const L: usize, const W: usize>(t: &mut Tape, c: &mut Case) -> CaseResult
 where
     Uint<L>: Concat<Output = Uint<W>>,
     Uint<L>: crypto_bigint::ConcatMixed<Uint<L>, MixedOutput = Uint<W>>,
@@ -291,7 +293,7 @@ where
 }
 
 /// mixed widening forms (W = L + R) where `ConcatMixed` exists
-fn fixed_wide_mixed<const L: usize, const R: usize, const W: usize>(t: &mut Tape, c: &mut Case) -> CaseResult
+pub(crate) fn fixed_wide_mixed<const L: usize, const R: usize, const W: usize>(t: &mut Tape, c: &mut Case) -> CaseResult
 where
     Uint<L>: crypto_bigint::ConcatMixed<Uint<R>, MixedOutput = Uint<W>>,
 {
@@ -311,9 +313,9 @@ where
 // ------------------------------------------------------------------------------------------------
 // boxed
 
-const BOXED_BIASED: [usize; 24] = [1, 2, 3, 4, 7, 8, 15, 16, 17, 24, 25, 31, 32, 33, 34, 47, 48, 49, 50, 63, 64, 65, 66, 96];
+pub(crate) const BOXED_BIASED: [usize; 24] = [1, 2, 3, 4, 7, 8, 15, 16, 17, 24, 25, 31, 32, 33, 34, 47, 48, 49, 50, 63, 64, 65, 66, 96];
 
-fn boxed_len(t: &mut Tape, max: usize) -> usize {
+pub(crate) fn boxed_len(t: &mut Tape, max: usize) -> usize {
     let n = match t.weighted(&[3, 1]) {
         0 => t.pick(&BOXED_BIASED),
         _ => t.usize_in(1, max),
@@ -478,5 +480,7 @@ fn subchecks(ctx: &Ctx) -> Vec<SubCheck> {
         let wide = sc.name.contains("U4096") || sc.name.contains("U8192") || sc.name.contains("U2048");
         sc.cases *= if wide { 6 } else { 20 };
     }
+    // API-surface audit (/verif/audit/B.md): forms, routes and widths no sub-check above reaches
+    v.extend(surface::subchecks(ctx));
     v
 }
